@@ -19,6 +19,11 @@ def claimed():
     return sorted(f[:-5] for f in os.listdir(d) if f.endswith(".json") and not f.startswith("_"))
 
 
+def all_props_with_spec():
+    d = os.path.join(ROOT, "lib", "props")
+    return sorted(f[:-3] for f in os.listdir(d) if f.startswith("C") and f.endswith(".py"))
+
+
 def build():
     d = os.path.join(ROOT, "manifest.d")
     checks = []
